@@ -19,6 +19,9 @@ EXPLANATION = (
   "WebVTT cue payload passes through the escaping function, which replaces & < >; (SEQ-id) SRT cue numbers are 1.. in order and the "
   "WebVTT counter is decremented when a blank cue is dropped; (HDR) WEBVTT header, then the STYLE block, then the cues; (GUARD) "
   "to_string refuses begin >= end instead of printing an invalid cue."
+  " (MEMO) each class-name memo of the WebVTT context is filled by a single producer;"
+  " (ORD-preorder) ISD filters that read the parent's styles and write the element's own finish the element before visiting its children;"
+  " (STATE-alias / STATE-global) no function of the anchored modules mutates a module- or class-level container, rebinds module / class state or mutates a mutable default argument, so a result never depends on earlier calls;"
 )
 RULE_TEXT = "per tag pair, per tag append, per supported value, per text flow"
 UNDECIDED = ["cue-setting values (line, align) vs the computed position and alignment", "no empty line / no '-->' inside an SRT payload (SRT has no escaping mechanism)",
